@@ -15,3 +15,31 @@ def region(name):
 def _c19_scale_sdr_isr(inp):
     """outputs excluded from `image_crit_sir_sar_scale_partial`: SDR and ISR of bss_eval_images under rescaling"""
     return inp.get("fn") == "images" and inp.get("check") == "scale_sdr_isr" and inp.get("scale_factor") not in (None, 1, 1.0)
+
+
+@region("c19_rank_deficient_references_solve_no_error")
+def _c19_rank_deficient(inp, what=""):
+    """the delayed reference channels are exactly linearly dependent (e.g. a stereo source with identical
+    channels) AND the code's np.linalg.solve did not raise LinAlgError, so the lstsq fall-back was not taken
+    (outside the hypotheses of the C19_LS theorems: `solve?` = none; binary64 only)"""
+    if inp.get("check") != "ls_singular" or "without LinAlgError" not in what:
+        return False
+    from fractions import Fraction as Fr
+    rows = [ch for src in inp["refs3"] for ch in src] if "refs3" in inp else inp["refs"]
+    flen, n = inp["flen"], len(rows[0])
+    B = []
+    for r in rows:
+        for d in range(flen):
+            B.append([Fr(0)] * d + [Fr(x) for x in r] + [Fr(0)] * (flen - 1 - d))
+    rank = 0
+    for c in range(n + flen - 1):
+        piv = next((i for i in range(rank, len(B)) if B[i][c] != 0), None)
+        if piv is None:
+            continue
+        B[rank], B[piv] = B[piv], B[rank]
+        for i in range(rank + 1, len(B)):
+            if B[i][c] != 0:
+                f = B[i][c] / B[rank][c]
+                B[i] = [a - f * b for a, b in zip(B[i], B[rank])]
+        rank += 1
+    return rank < len(B)
